@@ -175,3 +175,45 @@ func ZZ_C15_direct() {
 	rt.Assert(pf == !within, "direct:fill-accepted-iff-within")
 	rt.Reach("end")
 }
+
+// ZZ_C15_ellipsis: ASCII variables keep their bounds when an ellipsis expansion renames or
+// repeats them (and when they merely sit next to the expanded list).
+func ZZ_C15_ellipsis() {
+	lo := rt.IntRange("lo", 0, 6)
+	hi := -1
+	if rt.Choice("hisel", 2) == 1 {
+		hi = rt.IntRange("hi", 0, 6)
+		rt.Assume(lo <= hi)
+	}
+	n := rt.Choice("n", 3)
+	tmpl := ast.NewListNode(ast.NewListNode(ast.NewASCIINodeVariable("r", lo, hi), "..."), ast.NewASCIINodeVariable("sib", lo, hi))
+	got := tmpl.FillVariables(map[string]interface{}{"...": n})
+	names := []string{"r", "sib"}
+	if n > 0 {
+		names = []string{"r[0]", "sib"}
+		if n == 2 {
+			names = []string{"r[0]", "r[1]", "sib"}
+		} else {
+			names = []string{"r[0]", "r[1]", "sib"}[:0]
+			names = append(names, "r[0]", "r[1]", "sib")
+		}
+	}
+	if n == 1 {
+		names = []string{"r[0]", "r[1]", "sib"}
+	}
+	if n == 2 {
+		names = []string{"r[0]", "r[1]", "r[2]", "sib"}
+	}
+	rt.Assert(rt.StrsEq(got.Variables(), names), "ellipsis:names")
+	c := rt.Param("c")
+	fill := ""
+	for i := 0; i < c; i++ {
+		fill += "y"
+	}
+	within := rt.And(lo <= c, rt.Or(hi == -1, c <= hi))
+	for _, nm := range names {
+		p := rt.Try(func() { got.FillVariables(map[string]interface{}{nm: fill}) })
+		rt.Assert(p == !within, "ellipsis:renamed-variable-keeps-bounds")
+	}
+	rt.Reach("end")
+}
